@@ -188,7 +188,7 @@ struct scalar_of< static_matrix<T, N, M> > {
 /// Replace scalar type in the static matrix.
 template <class T, int N, int M, class S>
 struct replace_scalar<static_matrix<T, N, M>, S> {
-    typedef static_matrix<S, N, M> type;
+    typedef static_matrix<typename replace_scalar<T, S>::type, N, M> type;
 };
 
 /// RHS type corresponding to a non-scalar type.
